@@ -128,7 +128,7 @@ structure Core where
   gate : Nat
   gotRev : List UInt8
 
-def Sh.core (sh : Sh) : Core := ⟨sh.buf, sh.pseq, sh.cseq, sh.gate, sh.gotRev⟩
+def _root_.Mqtt.Model.Ring.Sh.core (sh : Sh) : Core := ⟨sh.buf, sh.pseq, sh.cseq, sh.gate, sh.gotRev⟩
 
 /-! ### normal forms of one step -/
 
